@@ -13,7 +13,7 @@ from typing import Dict, List, Optional, Set, Tuple
 from oqv import roles, rolebind
 from oqv.astutil import branch_context, call_name, method_call
 from oqv.cfg import CFG
-from oqv.dataflow import DefUse, form_at
+from oqv.dataflow import DefUse, expand, form_at
 from oqv.forms import Poly, eval_form
 from oqv.model import AnalysisError, Program, Unit, dotted, norm, walk_local
 from oqv.report import Check
@@ -324,8 +324,9 @@ def u1_u3(prog: Program, chk: Check) -> None:
             if isinstance(c, ast.Call) and (dotted(c.func) or "").split(".")[-1] in \
                     ("round", "rint", "around") and c.args:
                 arg = c.args[0]
+                # the quotient may sit in a temporary
                 if not any(isinstance(x, ast.BinOp) and isinstance(x.op, ast.Div)
-                           for x in ast.walk(arg)):
+                           for x in ast.walk(expand(du, du.node_of(c), arg))):
                     continue
                 n += 1
 
